@@ -389,6 +389,8 @@ package main
 // presentation that read the profile before the accepted period was saved is still turned away by the two-second gate
 //@   ensures ret0 && ret1 == nil ==> hasKey(state.totpLocalRateLimit, username) && timeNanos(state.totpLocalRateLimit[username].lastCheckTime) == nowNanos()   #C16.accepted-code-leaves-the-gate-closed @C16,C14
 //@   ensures sincefirstlock !ret0 && ret1 == nil && state.totpLocalRateLimit[username].failCount != old(state.totpLocalRateLimit[username].failCount) && state.totpLocalRateLimit[username].failCount % 5 == 0 ==> timeNanos(state.totpLocalRateLimit[username].lockoutExpirationTime) >= nowNanos() + 3600000000000  #C14.totp-lockout-escalates @C14
+// a counted failure is dated now (the day-long accumulation window and the lock-out hang on that date)
+//@   ensures sincefirstlock !ret0 && ret1 == nil && state.totpLocalRateLimit[username].failCount != old(state.totpLocalRateLimit[username].failCount) && state.totpLocalRateLimit[username].failCount != 0 ==> timeNanos(state.totpLocalRateLimit[username].lastFailTime) == nowNanos()   #C14.totp-failure-dated @C14
 //@   ensures sincefirstlock !ret0 && ret1 == nil && old(state.totpLocalRateLimit[username].failCount) < 4000000000 && timeNanos(old(state.totpLocalRateLimit[username].lastCheckTime)) + 2000000000 <= nowNanos() && timeNanos(old(state.totpLocalRateLimit[username].lockoutExpirationTime)) <= nowNanos() && ghostProfile.LastSuccessfullTOTPCounter != totpPeriodOf(t) ==> state.totpLocalRateLimit[username].failCount >= 1  #C14.totp-failure-counted @C14
 //@   ensures sincefirstlock !ret0 && ret1 == nil && old(state.totpLocalRateLimit[username].failCount) < 4000000000 && timeNanos(old(state.totpLocalRateLimit[username].lastCheckTime)) + 2000000000 <= nowNanos() && timeNanos(old(state.totpLocalRateLimit[username].lockoutExpirationTime)) <= nowNanos() && ghostProfile.LastSuccessfullTOTPCounter != totpPeriodOf(t) && timeNanos(old(state.totpLocalRateLimit[username].lastFailTime)) + 86400000000000 >= nowNanos() ==> state.totpLocalRateLimit[username].failCount == old(state.totpLocalRateLimit[username].failCount) + 1  #C14.totp-failures-accumulate-within-a-day @C14
 
@@ -942,3 +944,13 @@ package main
 //@ initvalues saveSignedUserDataStmt all `^insert (or replace )?into expiring_signed_user_data\(username, type, jws_data, expiration_epoch, update_epoch\) values ?\((\?,\?, \?, \?, \?|\$1,\$2,\$3,\$4, \$5)\)( ON CONFLICT\(username,type\) DO UPDATE SET +jws_data = excluded\.jws_data, expiration_epoch = excluded\.expiration_epoch)?$`   #C15.record-replaced-by-exact-name-and-type @C15,C07
 //@ initvalues sqliteinitializationStatements some `expiring_signed_user_data\(.*UNIQUE\(username,type\)`   #C15.one-signed-record-per-user-and-type @C15,C07
 //@ initvalues sqliteinitializationStatements some `user_profile \(.*username text unique`   #C15.one-profile-per-user @C15,C08
+
+// ---- C13 / C12 / C14: the configuration keys the properties speak about are the ones the decoder reads -----------
+// (yaml.Unmarshal ignores unknown keys: a mistyped tag silently leaves the field empty)
+//@ fieldtag OpenIDConnectClientConfig.AllowedRedirectDomains yaml "allowed_redirect_domains"   #C13.domains-read-from-the-documented-key @C13
+//@ fieldtag OpenIDConnectClientConfig.AllowedRedirectURLRE yaml "allowed_redirect_url_re"   #C13.patterns-read-from-the-documented-key @C13
+//@ fieldtag OpenIDConnectClientConfig.ClientID yaml "client_id"   #C13.client-id-read-from-the-documented-key @C13,C12
+//@ fieldtag OpenIDConnectClientConfig.ClientSecret yaml "client_secret"   #C12.client-secret-read-from-the-documented-key @C12
+//@ fieldtag baseConfig.PasswordAttemptGlobalBurstLimit yaml "password_attempt_global_burst_limit"   #C14.burst-read-from-the-documented-key @C14
+//@ fieldtag baseConfig.PasswordAttemptGlobalRateLimit yaml "password_attempt_global_rate_limit"   #C14.rate-read-from-the-documented-key @C14
+//@ fieldtag baseConfig.AllowedAuthBackendsForCerts yaml "allowed_auth_backends_for_certs"   #C01.listed-methods-read-from-the-documented-key @C01
